@@ -44,11 +44,19 @@ def scan : List R → Nat → Acc
   | [], _ => {}
   | r :: rest, i => loopStep (scan rest (i + 1)) i r
 
-/-- `revocationFinalResult`: (final result, index of the problematic certificate) -/
-def revocationFinal (rs : List R) : Final × Option Nat :=
+/-- the aggregation over a result vector that has one entry per certificate -/
+def aggregate (rs : List R) : Final × Option Nat :=
   let acc := scan rs 0
   let (final, prob) := if acc.revokedFound then (Final.revoked, acc.revokedIdx) else (acc.final, acc.problematic)
   if acc.numOK == rs.length then (.ok, prob) else (final, prob)
+
+/-- `revocationFinalResult`: (final result, index of the problematic certificate). Fails closed
+(unknown, nobody named) when the validator did not return exactly one result per certificate. -/
+def revocationFinalFor (chainLen : Nat) (rs : List R) : Final × Option Nat :=
+  if rs.length != chainLen then (.unknown, none) else aggregate rs
+
+/-- the common case: as many results as certificates -/
+def revocationFinal (rs : List R) : Final × Option Nat := revocationFinalFor rs.length rs
 
 /-! ### scenario -/
 
@@ -62,7 +70,8 @@ inductive Action | enforce | log | skip
   deriving DecidableEq, Repr, FromJson, ToJson
 
 structure Input where
-  vec : List R                 -- one result per chain certificate, leaf first
+  vec : List R                 -- the validator's results, leaf first
+  chainLen : Nat               -- number of certificates in the signing chain (normally = vec.length)
   scheme : Scheme
   iface : Iface
   action : Action              -- action of the revocation type in the level
@@ -98,13 +107,13 @@ def run (i : Input) : Obs :=
       signingTime := none, usedIface := none }
   else
     let base : Obs := { outcome := .pass, named := none, accepted := true, calls := 1,
-                        chainLen := some i.vec.length,
+                        chainLen := some i.chainLen,
                         signingTime := some (i.scheme == .signingAuthority),
                         usedIface := some i.iface }
     let fail (o : Outcome) (n : Option Nat) : Obs :=
       { base with outcome := o, named := n, accepted := i.action != .enforce }
     if i.validatorError then fail .inconclusive none
-    else match revocationFinal i.vec with
+    else match revocationFinalFor i.chainLen i.vec with
       | (.ok, _) => base
       | (.revoked, n) => fail .revoked n
       | (.unknown, n) => fail .unknown n
@@ -113,12 +122,13 @@ def run (i : Input) : Obs :=
 
 def clauses (i : Input) (o : Obs) : Clauses :=
   let performed := i.action != .skip
-  let allGood := i.vec.all R.good
-  let anyRevoked := i.vec.any (· == .revoked)
+  let complete := i.vec.length == i.chainLen        -- one result per certificate
+  let allGood := complete && i.vec.all R.good
+  let anyRevoked := complete && i.vec.any (· == .revoked)
   [ ("skipped_not_performed",
       performed || (o.outcome == .notPerformed && o.calls == 0)),
     ("validator_consulted_once_with_complete_chain",
-      !performed || (o.calls == 1 && o.chainLen == some i.vec.length && o.usedIface == some i.iface)),
+      !performed || (o.calls == 1 && o.chainLen == some i.chainLen && o.usedIface == some i.iface)),
     ("signing_time_only_for_signing_authority",
       !performed || o.signingTime == some (i.scheme == .signingAuthority)),
     ("validator_error_fails", !(performed && i.validatorError) || o.outcome == .inconclusive),
@@ -134,8 +144,8 @@ def clauses (i : Input) (o : Obs) : Clauses :=
       !(performed && !i.validatorError && !allGood && !anyRevoked) ||
         (o.outcome == .unknown &&
           match o.named with
-          | some n => (i.vec[n]?.map R.good) == some false
-          | none => false)),
+          | some n => complete && (i.vec[n]?.map R.good) == some false
+          | none => !complete)),
     ("action_decides_rejection",
       o.accepted == !(i.action == .enforce && o.outcome != .pass && o.outcome != .notPerformed)) ]
 
